@@ -4,7 +4,7 @@ B ?= build
 CXXSTD := -std=c++17
 DEFS := -DFASTSCAPELIB_VERIF_HOOKS -DNDEBUG -D_GLIBCXX_ASSERTIONS
 INC := -I$(REPO)/include
-COMMON := $(CXXSTD) -O1 -g $(DEFS) $(INC) -MMD -MP -pthread -Wno-deprecated-declarations
+COMMON := $(CXXSTD) -O1 -g1 $(DEFS) $(INC) -MMD -MP -pthread -Wno-deprecated-declarations
 
 ADDR_FLAGS := -fsanitize=address,undefined -fsanitize-recover=all -fno-omit-frame-pointer \
   -finstrument-functions -finstrument-functions-exclude-file-list=/usr/include,/usr/lib,/verif/,harness/,sim/ \
@@ -17,7 +17,7 @@ CLANGXX := clang++
 WORLD_GRIDS := profile raster_rook raster_queen raster_bishop raster_queen_nc raster_rook_nc trimesh
 
 .PHONY: all pool world clean
-all: pool
+all: pool world
 pool: $(B)/addr/pool $(B)/tsan/pool
 world: $(B)/addr/world $(B)/tsan/world
 
